@@ -1283,9 +1283,12 @@ public:
 
         classifier_.build(samples.data(), sample_size, splitter_lcp_);
 
-        // create new jobs
-        pwork_ = parts_;
-        for (unsigned int p = 0; p < parts_; ++p)
+        // create new jobs. the jobs may finish and finally delete this step
+        // before the loop ends, hence do not read members after the last
+        // enqueue.
+        const size_t parts = parts_;
+        pwork_ = parts;
+        for (unsigned int p = 0; p < parts; ++p)
         {
             ctx_.threads_.enqueue([this, p]() { count(p); });
         }
@@ -1343,9 +1346,12 @@ public:
         }
         assert(sum == strptr_.size());
 
-        // create new jobs
-        pwork_ = parts_;
-        for (unsigned int p = 0; p < parts_; ++p)
+        // create new jobs. the jobs may finish and finally delete this step
+        // before the loop ends, hence do not read members after the last
+        // enqueue.
+        const size_t parts = parts_;
+        pwork_ = parts;
+        for (unsigned int p = 0; p < parts; ++p)
         {
             ctx_.threads_.enqueue([this, p]() { distribute(p); });
         }
